@@ -16,6 +16,9 @@ def models(chk, thorough):
         ["%d_%d" % (pl, p) for pl in (1, 2, 3, 5) for p in (1, 2, 3)] + ["2_4", "5_4"]
     for c in cfgs:
         chk.model("MC_Mpi", "MC_Mpi_" + c, workers=4, deadlock=True, what="MC_Mpi plan %s ranks %s: MpiInv, no deadlock, all interleavings" % tuple(c.split("_")))
+    # the packed buffer of the reduction: unpacking with offsets that forget the rows of a two-dimensional distribution reads other bins' data
+    chk.model("MC_Layout", "MC_Layout", what="MC_Layout (flat layout of integral + bins of several distributions, as packed for the reduction): ReadsOwnFills")
+    chk.model("MC_Layout", "MC_Layout_readbx", what="MC_Layout with a reader that advances by 2 bx per distribution (non-vacuity)", expect_violation="ReadsOwnFills")
     live = vt.tlc("MC_Mpi", "MC_Mpi_live", workers=4, tag="C04")
     chk.add_tlc("MC_Mpi_live: liveness under weak fairness - every behaviour ends with all ranks returned (PROPERTY Termination)", live)
     if live.rc != 0 or "No error has been found" not in live.out:
